@@ -14,6 +14,7 @@ import ast
 from fractions import Fraction
 
 from . import terms as T
+from fractions import Fraction  # noqa
 from .consteval import NAN, Dec, Flt, Num, TDict, TList, TTuple, is_num, pure_method, qof
 from .srcmodel import AnalysisError, Cls, Func, short
 from .terms import ABSENT, ERR, FALSE, TRUE, App, BoolOp, Cmp, Const, Fin, Opaque, P, Term
@@ -341,6 +342,9 @@ class Interp(object):
                     return True
                 if all(d is False for d in ds):
                     return False
+            folded = self.try_fold_bool(st, c)
+            if isinstance(folded, (Fin, Const)):
+                return self.decide(st, folded)
             return None
         if mk_not(c).sortkey() in st.facts:
             return False
@@ -465,6 +469,15 @@ class Interp(object):
             b = self.to_poly(st, b, None)
             if same(a, b):
                 return a
+            d = T.p_add(a, b, -1)
+            if d.is_const() and not T.may_nan(a) and not T.may_nan(b):
+                # counter idiom: ITE(c, x + k, x) = x + k*[c]  (order-insensitive normal form)
+                nc = mk_not(c)
+                if not (isinstance(nc, BoolOp) and nc.op == "not") and nc.sortkey() < c.sortkey():
+                    c, a, b = nc, b, a
+                    d = T.p_neg(d)
+                ind = P.atom(App("ind", (c,)), "int")
+                return T.p_add(b, T.p_mul(P.const(d.const_value(), d.kind), ind))
         # canonical polarity: the arm with the smaller key comes first
         if isinstance(a, Term) and isinstance(b, Term) and not (is_boolish(a) and is_boolish(b)):
             if b.sortkey() < a.sortkey():
@@ -544,7 +557,9 @@ class Interp(object):
                     bad.append(val)
             if bad and st is not None:
                 self.event("none_arith", node, module, st, value=r, bad=bad)
-            return P.atom(r, kinds)
+            # numeric leaves are compared by exact value: 10, 10.0 and D("10.0") are one leaf
+            norm = dict((k, (Fraction(qof(x)) if is_num(x) else x)) for k, x in r.table.items())
+            return P.atom(Fin(r.slots, norm), kinds)
         if isinstance(v, App) and v.op == "ite":
             a = self.to_poly(st, v.args[1], node, module)
             b = self.to_poly(st, v.args[2], node, module)
